@@ -46,6 +46,21 @@ CLAIMED = {
              "tools/c08.py (independent Python offset decoder as predicate). Debug-build semantics.",
         technique="Coq proof (cursor = offset spec; 65536-code enumeration by vm_compute; list induction) + correspondence",
         design="6/C08"),
+    "C11": dict(
+        text="Coq theorems (props/C11.v): cursor-style models of Leader/Trailer::parse and of the image / extended-chunk / "
+             "chunk specific parts equal a fixed-offset U3V layout decoder for every byte string (Ok iff accepted, all "
+             "fields equal, never Panic); pixel-format codes map one-to-one to formats over the tables REGENERATED from "
+             "pixel_format.rs on every run (both directions, all integers; the catch-all arm is asserted by the "
+             "translator); PayloadBuilder::build: for any leader, trailer, buffer and received count within the buffer, "
+             "Ok implies id/type/timestamp/image info come from that leader and trailer and image size <= valid size <= "
+             "received <= buffer, so image()/payload() cannot panic; build never panics; the backwards chunk walk is "
+             "bounded. Codec part tied to /repo by correspondence in h_proto (incl. sweeps of pixel-code ranges, all "
+             "2^32 codes in the thorough tier); payload assembly is tied through the real streaming loop in the C12 "
+             "harness.",
+        note="Trusted: Coq kernel, model/Stream.v + model/Payload.v, spec/StreamLayout.v (typed from the U3V layout), "
+             "tools/translate.py (regex translator, shape assertions), extraction + driver, rust/h_proto, tools/c11.py.",
+        technique="Coq proof (cursor = offset spec; table bijection by vm_compute over regenerated tables; builder bounds) + translator + correspondence",
+        design="6/C11"),
 }
 
 ALL = ["C%02d" % i for i in range(1, 21)]
